@@ -211,6 +211,39 @@ mod real {
         }
 
         /// Run one corpus file through the real code and emit the case.
+        /// Run one probe file through the real update and return its content afterwards.
+        fn probe_update(&mut self, content: &str, filter: char) -> String {
+            self.n += 1;
+            let dir = self.scratch.join(format!("p{}", self.n)).join("corpus");
+            std::fs::create_dir_all(&dir).unwrap();
+            let path = dir.join("probe.txt");
+            std::fs::write(&path, content).unwrap();
+            let _ = self.update(&path, &path, filter);
+            let after = std::fs::read_to_string(&path).unwrap_or_default();
+            let _ = std::fs::remove_dir_all(self.scratch.join(format!("p{}", self.n)));
+            after
+        }
+
+        pub fn probe_repairs(&mut self) -> Vec<bool> {
+            let count = |s: &str, pat: &str| s.matches(pat).count();
+            // 1. a :skip test survives the update
+            let a1 = self.probe_update("===\nrun\n===\na = 1;\n---\n\n(wrong)\n\n===\nskipped\n:skip\n===\nb = 2;\n---\n\n(source)\n", 'n');
+            let keep_unrun = a1.contains("skipped");
+            // 2. a test with two :language lines is written once
+            let a2 = self.probe_update("===\ntwice\n:language(main)\n:language(main)\n===\na = 1;\n---\n\n(wrong)\n", 'n');
+            let one_correction = count(&a2, "twice") == 1;
+            // 3. the delimiter suffix and the text in front of the first test survive
+            let a3 = self.probe_update("; leading note\n\n===|||\nsuffixed\n===|||\na = 1;\n---|||\n\n(wrong)\n", 'n');
+            let keep_suffix_preamble = a3.contains("===|||") && a3.starts_with("; leading note");
+            // 4. format_sexp leaves quote mode at the closing quote
+            let f = tree_sitter::format_sexp("(a (UNEXPECTED 'x') (UNEXPECTED 'x') (b))", 0);
+            let quote_reset = f == "(a\n  (UNEXPECTED 'x')\n  (UNEXPECTED 'x')\n  (b))";
+            // 5. a :cst test carried over by a filtered update keeps its expectation ("first" matches --exclude [io])
+            let a5 = self.probe_update("===\nfirst\n:cst\n===\na = 1;\n---\n\n0:0 - 0:6 source\n\n===\nup\n===\nc = 3;\n---\n\n(wrong)\n", 'x');
+            let keep_cst_filtered = a5.contains("0:0 - 0:6 source");
+            vec![keep_unrun, one_correction, keep_suffix_preamble, quote_reset, keep_cst_filtered]
+        }
+
         /// `filter`: n / i / x = update of the single file; N / I / X = the same filter, but the update is run on the
         /// DIRECTORY that contains the case file (`a_case.txt`) and a second, fixed file (`b_fixed.txt`).
         pub fn run_case(&mut self, out: &mut impl Write, cid: &str, filter_spec: char, content: &[u8]) {
@@ -507,6 +540,13 @@ mod real {
         let stmt = zoo::load("stmt").unwrap();
         let mut world = World { langs, scratch, n: 0 };
         let mut cases = 0usize;
+        // Which of the repaired defects does the code under test show?  Decided BEHAVIOURALLY on one distinguishing
+        // input per defect (never from source text or from the status of a finding), so that the model variant follows
+        // the code: a reverted fix makes the model follow the old behaviour (and the judge report the old violation),
+        // a harmless rewrite changes nothing.
+        let probes = world.probe_repairs();
+        writeln!(out, "fixes {}", probes.iter().map(|b| if *b { "1" } else { "0" }).collect::<Vec<_>>().join(" ")).unwrap();
+        eprintln!("c20: probed repairs keepUnrun,oneCorrection,keepSuffixPreamble,quoteReset,keepCstFiltered = {probes:?}");
         if args.get(3).map(|s| s == "--spec").unwrap_or(false) {
             let specs = std::fs::read_to_string(&args[4]).unwrap();
             for (i, line) in specs.lines().enumerate() {
